@@ -116,6 +116,9 @@ func (s *Session) Consume(p Pack) {
 	defer buffers.Put(buf)
 	p2 := p.(*rtsp.RTPPack)
 	p2.Write(buf, s.transport.Channels[:])
+	if buf.Len() == 0 { // 该通道未订阅(未 SETUP)：没有内容，不能发一个空的 WebSocket 消息
+		return
+	}
 
 	var err error
 	s.lockW.Lock()
